@@ -513,14 +513,16 @@ class C21Engine(_EPBase):
                     # inside every delivery, so rounding-level differences introduced by a rescale legitimately grow to
                     # ~1e-8..1e-7 (measured, see the twin_rel_diff_* counters); a real "rescale changes the posterior"
                     # bug mis-scales a whole message, i.e. is of order 1e-3..1.
-                    # Measured tail over 10 416 judged twins: 12 above 1e-9, 3 above 1e-8, 1 above 1e-7, none above 1e-6; the
-                    # threshold leaves four more decades so that hundreds of thousands of twins stay silent.
-                    twin_tol = 1e-2
+                    # Measured tail over 141 844 judged twins (thorough run): 222 above 1e-9, 77 above 1e-8, 24 above 1e-7,
+                    # 2 above 1e-6, 1 above 1e-5 - the tail falls by only ~3x per decade (EP is not contractive everywhere),
+                    # so the threshold sits at 10 %: what it is meant to catch, a message mis-scaled by a pending scale
+                    # factor, changes posteriors by tens of percent or more.
+                    twin_tol = 0.1
                     bad = diff > twin_tol * np.maximum(np.maximum(scale, st.H), floor)
                     res["stats"]["twin_runs"] += 1
                     Hn = np.maximum(st.H, floor)
                     rel = float(np.max(diff / np.where(Hn > 0, Hn, 1.0))) if a.size else 0.0
-                    for thr in ("1e-13", "1e-11", "1e-9", "1e-8", "1e-7", "1e-6", "1e-5"):
+                    for thr in ("1e-13", "1e-11", "1e-9", "1e-8", "1e-7", "1e-6", "1e-5", "1e-4", "1e-3", "1e-2"):
                         if rel > float(thr):
                             res["stats"]["twin_rel_diff_gt_" + thr + ("_tinyshape" if cfg["max_shape"] < 1.5 else "")] += 1
                     if cfg["max_shape"] < 1.5:
